@@ -1215,13 +1215,20 @@ class MapForeign(FunctionContract):
         return [("None-and-strings-have-no-dependencies", r.t == empty())]
 
 
-def units():
+def dependency_mapper_units():
+    """how the mapper behind every statement's read set is built (shared with C07, whose passes test and seed from read sets)"""
     from pyvc.contracts import ClassShapeUnit
-    us = [
+    return [
         ClassShapeUnit("dagrt/expression.py", "ExtendedDependencyMapper", {"map_foreign"}, ["DependencyMapper"], "A-DEP"),
-        FunctionUnit(MapForeign("None")), FunctionUnit(MapForeign("str")), FunctionUnit(MapForeign("other")),
         FunctionUnit(MapperFactory("StatementBase.get_dependency_mapper", "DependencyMapper")),
         FunctionUnit(MapperFactory("Statement.get_dependency_mapper", "ExtendedDependencyMapper")),
+    ]
+
+
+def units():
+    from pyvc.contracts import ClassShapeUnit
+    us = dependency_mapper_units() + [
+        FunctionUnit(MapForeign("None")), FunctionUnit(MapForeign("str")), FunctionUnit(MapForeign("other")),
         ClassShapeUnit("dagrt/expression.py", "EvaluationMapper",
                        {"__init__", "map_variable", "map_generic_call", "map_call", "map_call_with_kwargs"},
                        ["EvaluationMapperBase"], "A-EVAL"),
